@@ -461,6 +461,54 @@ var propHist = stats.Prop(R, "history", func(t *rapid.T) HistCase { return HistC
 
 func TestHistory(t *testing.T) { rapid.Check(t, propHist) }
 
+// Long runs: millions of repetitions of one tiny unit - the empty frame casters send as a keep-alive
+// (d3 00 00 and its CRC), a bare zero-length leader, the smallest valid frame, a junk byte before a start
+// byte.  Neither the length of a run nor the number of units in it may exhaust anything.
+type RunCase struct {
+	Unit stats.Hex `json:"unit"`
+	N    int       `json:"repetitions"`
+}
+
+func checkRun(c RunCase, o *stats.Obs) error {
+	if len(c.Unit) == 0 || c.N < 1 || len(c.Unit)*c.N > 64<<20 {
+		o.Skip = true
+		return nil
+	}
+	input := bytes.Repeat(c.Unit, c.N)
+	res := drive.Run(drive.NewHandler(slog.LevelInfo), input, drive.Options{InCap: 4096, OutCap: 64, Timeout: 60 * time.Second})
+	if res.Panic != "" {
+		o.Key = "panic"
+		return fmt.Errorf("HandleMessages panicked on %d repetitions of %x: %s", c.N, []byte(c.Unit), res.Panic)
+	}
+	if res.TimedOut || !res.Closed {
+		o.Key = "hang"
+		return fmt.Errorf("HandleMessages did not finish on %d repetitions of %x (timed out %v, closed %v)", c.N, []byte(c.Unit), res.TimedOut, res.Closed)
+	}
+	o.NonTrivial = c.N >= 1000000
+	o.Class(fmt.Sprintf("run-of-%x", []byte(c.Unit)))
+	return nil
+}
+
+func genRun(t *rapid.T) RunCase {
+	units := [][]byte{{0xd3, 0x00, 0x00, 0x47, 0xea, 0x4b}, {0xd3, 0x00, 0x00}, enc.Frame([]byte{0x3e}), {'x', 0xd3}, {0xd3}}
+	n := 3000000 // enough to exhaust a 32-bit build's stack (250 MB) if every unit costs a stack frame
+	if strconv.IntSize == 64 {
+		n = 300000
+		if os.Getenv("VERIF_TIER") == "thorough" {
+			n = 5000000
+		}
+	}
+	unit := rapid.SampledFrom(units).Draw(t, "unit")
+	if sh, err := strconv.Atoi(os.Getenv("VERIF_SHARD")); err == nil {
+		unit = units[sh%len(units)] // every unit in every run
+	}
+	return RunCase{Unit: unit, N: n}
+}
+
+var propRun = stats.Prop(R, "long-run", genRun, checkRun)
+
+func TestLongRun(t *testing.T) { rapid.Check(t, propRun) }
+
 func TestReplay(t *testing.T) { R.Replay(t) }
 
 // FuzzTypedFrame: bytes -> (type selector, payload) framed with a good CRC, so the
